@@ -39,6 +39,7 @@ class ExecutorBase {
   inline static bool decNumIncompletePredecessors(
       const dispenso::Node& node,
       std::memory_order order) {
+    DISPENSO_VERIF_POINT("GrDec", &node);
     return node.numIncompletePredecessors_.fetch_sub(1, order) == 1;
   }
 
@@ -47,10 +48,12 @@ class ExecutorBase {
       std::memory_order order) {
     const std::memory_order loadOrder =
         order == std::memory_order_relaxed ? std::memory_order_relaxed : std::memory_order_acquire;
+    DISPENSO_VERIF_POINT("GrLd", &node);
     if (node.numIncompletePredecessors_.load(loadOrder) == dispenso::Node::kCompleted) {
       return false;
     }
 
+    DISPENSO_VERIF_POINT("GrDec", &node);
     return node.numIncompletePredecessors_.fetch_sub(1, order) == 1;
   }
 
